@@ -47,6 +47,11 @@ pub enum EqVariant {
     ExtraRow,
     ExtraCol,
     EmptyVsEmpty,
+    /// an array with a cell that is not equal to itself (f64 NaN) compared with itself and with its clone
+    NotReflexive,
+    /// cells whose Eq / Hash look at one field only (the other field differs between a and b),
+    /// and `&str` cells with equal contents at different addresses
+    EqByKey,
 }
 
 #[derive(Serialize, Deserialize, Clone, Debug, PartialEq)]
@@ -375,8 +380,69 @@ fn convert_case<E: Elem + Clone>(cols: usize, rows: usize, what: Conv, take: (u8
     Ok(())
 }
 
+/// equal iff the keys are equal; the hash covers the key only
+#[derive(Clone, Copy, Debug)]
+struct Hk {
+    key: u8,
+    tag: u8,
+}
+impl PartialEq for Hk {
+    fn eq(&self, o: &Hk) -> bool {
+        self.key == o.key
+    }
+}
+impl Eq for Hk {}
+impl Hash for Hk {
+    fn hash<H: std::hash::Hasher>(&self, h: &mut H) {
+        self.key.hash(h)
+    }
+}
+
+fn eq_special(c: usize, r: usize, variant: EqVariant, ctx: &mut Ctx) -> Verdict {
+    let n = c * r;
+    match variant {
+        EqVariant::NotReflexive => {
+            if n == 0 {
+                return Ok(());
+            }
+            let mut v: Vec<f64> = (0..n).map(|i| i as f64).collect();
+            v[n / 2] = f64::NAN;
+            let a = TooDee::from_vec(c, r, v);
+            #[allow(clippy::eq_op)]
+            let self_eq = a == a;
+            ensure!(!self_eq, "eq/NotReflexive", "a {}x{} array with a NaN cell compares equal to itself although that cell is not equal to itself", c, r);
+            let b = a.clone();
+            ensure!(a != b && !(a == b), "eq/NotReflexive-clone", "an array with a NaN cell compares equal to its clone");
+            let z: TooDee<f64> = TooDee::from_vec(c, r, (0..n).map(|i| i as f64).collect());
+            ensure!(z == z.clone(), "eq/reflexive-floats", "an array of ordinary floats differs from its clone");
+        }
+        _ => {
+            let a = TooDee::from_vec(c, r, (0..n).map(|i| Hk { key: (i % 5) as u8, tag: 1 }).collect::<Vec<_>>());
+            let b = TooDee::from_vec(c, r, (0..n).map(|i| Hk { key: (i % 5) as u8, tag: 200 }).collect::<Vec<_>>());
+            ensure!(a == b, "eq/EqByKey", "arrays whose cells are equal (by their own Eq) compare unequal");
+            ensure!(hash_of(&a) == hash_of(&b), "hash/EqByKey", "a == b (cells equal by their own Eq, hash consistent with it) but the arrays hash differently ({}x{})", c, r);
+            let words: Vec<String> = (0..n).map(|i| format!("w{}", i % 3)).collect();
+            let words2: Vec<String> = words.iter().map(|s| s.to_string()).collect();
+            let sa: TooDee<&str> = TooDee::from_vec(c, r, words.iter().map(|s| s.as_str()).collect());
+            let sb: TooDee<&str> = TooDee::from_vec(c, r, words2.iter().map(|s| s.as_str()).collect());
+            ensure!(sa == sb && hash_of(&sa) == hash_of(&sb), "hash/str-cells", "arrays of equal &str cells at different addresses compare or hash differently ({}x{})", c, r);
+            if n > 0 {
+                let mut d = a.clone();
+                d[(0, 0)] = Hk { key: 9, tag: 1 };
+                ensure!(a != d, "eq/EqByKey-differs", "arrays differing in one key compare equal");
+            }
+        }
+    }
+    ctx.nt();
+    ctx.class(&format!("{:?}", variant));
+    Ok(())
+}
+
 fn eq_case(cols: usize, rows: usize, variant: EqVariant, ctx: &mut Ctx) -> Verdict {
     let (c, r) = if cols == 0 || rows == 0 { (0, 0) } else { (cols, rows) };
+    if matches!(variant, EqVariant::NotReflexive | EqVariant::EqByKey) {
+        return eq_special(c, r, variant, ctx);
+    }
     let n = c * r;
     let vals: Vec<u32> = (0..n as u32).map(|i| i.wrapping_mul(2654435761u32) >> 20).collect();
     let a = TooDee::from_vec(c, r, vals.clone());
@@ -417,6 +483,7 @@ fn eq_case(cols: usize, rows: usize, variant: EqVariant, ctx: &mut Ctx) -> Verdi
             }
             t
         }
+        EqVariant::NotReflexive | EqVariant::EqByKey => unreachable!(),
         EqVariant::EmptyVsEmpty => {
             let mut t: TooDee<u32> = TooDee::with_capacity(9);
             t.push_row(vec![1, 2, 3]);
@@ -557,7 +624,7 @@ impl Prop for C20 {
                     emit(CtorCase::CloneFrom { cols, rows, tc: cols * rows, tr: 1, tracked: true, spare: false });
                     emit(CtorCase::CloneFrom { cols, rows, tc: 1, tr: cols * rows, tracked: true, spare: true });
                 }
-                for variant in [EqVariant::Identical, EqVariant::Transposed, EqVariant::Flattened, EqVariant::DifferentCapacity, EqVariant::ExtraRow, EqVariant::ExtraCol, EqVariant::EmptyVsEmpty] {
+                for variant in [EqVariant::Identical, EqVariant::Transposed, EqVariant::Flattened, EqVariant::DifferentCapacity, EqVariant::ExtraRow, EqVariant::ExtraCol, EqVariant::EmptyVsEmpty, EqVariant::NotReflexive, EqVariant::EqByKey] {
                     emit(CtorCase::EqHash { cols, rows, variant });
                 }
                 for i in 0..(cols as u16 * rows as u16) {
@@ -569,7 +636,7 @@ impl Prop for C20 {
     fn strategy(_t: Tier) -> BoxedStrategy<CtorCase> {
         let kind = prop_oneof![Just(CtorKind::New), Just(CtorKind::Init), Just(CtorKind::FromVec), Just(CtorKind::FromBox), Just(CtorKind::ViewNew), Just(CtorKind::ViewMutNew), Just(CtorKind::WithCapacity)];
         let any_dim = || prop_oneof![8 => (0u8..=40).prop_map(Dim::S), 2 => (0u8..8).prop_map(Dim::Huge)];
-        let variant = prop_oneof![Just(EqVariant::Identical), Just(EqVariant::Transposed), Just(EqVariant::Flattened), any::<u16>().prop_map(EqVariant::OneCellChanged), Just(EqVariant::DifferentCapacity), Just(EqVariant::ExtraRow), Just(EqVariant::ExtraCol), Just(EqVariant::EmptyVsEmpty)];
+        let variant = prop_oneof![Just(EqVariant::Identical), Just(EqVariant::Transposed), Just(EqVariant::Flattened), any::<u16>().prop_map(EqVariant::OneCellChanged), Just(EqVariant::DifferentCapacity), Just(EqVariant::ExtraRow), Just(EqVariant::ExtraCol), Just(EqVariant::EmptyVsEmpty), Just(EqVariant::NotReflexive), Just(EqVariant::EqByKey)];
         let conv = prop_oneof![Just(Conv::IntoVec), Just(Conv::IntoBox), Just(Conv::IntoIter), Just(Conv::AsRefs), Just(Conv::Clone), Just(Conv::ViewFromViewMut)];
         prop_oneof![
             4 => (kind, any_dim(), any_dim(), prop_oneof![5 => Just(0i8), 1 => Just(-1i8), 1 => Just(1i8), 1 => Just(7i8), 1 => Just(-3i8)], any::<bool>(), prop::bool::weighted(0.15)).prop_map(|(kind, c, r, delta, tracked, zst)| CtorCase::Build { kind, c, r, delta, tracked, zst }),
@@ -628,6 +695,6 @@ impl Prop for C20 {
         exec(k, ctx)
     }
     fn essential_classes() -> &'static [&'static str] {
-        &["accepted", "rejected", "strided-from-view", "non-square-from-view", "pair-differing-only-in-shape", "equal-pair", "unequal-pair", "New", "Init", "FromVec", "FromBox", "ViewNew", "ViewMutNew", "Clone", "IntoIter", "CloneFrom", "clone_from-same-cell-count-different-shape", "clone_from-into-larger", "clone_from-into-smaller"]
+        &["accepted", "rejected", "strided-from-view", "non-square-from-view", "pair-differing-only-in-shape", "equal-pair", "unequal-pair", "New", "Init", "FromVec", "FromBox", "ViewNew", "ViewMutNew", "Clone", "IntoIter", "CloneFrom", "clone_from-same-cell-count-different-shape", "clone_from-into-larger", "clone_from-into-smaller", "NotReflexive", "EqByKey"]
     }
 }
